@@ -265,6 +265,10 @@ func (m *multiReader) Read(ctx context.Context, out frame.Frame) (n int, err err
 		switch {
 		case err == sliceio.EOF:
 			m.q = m.q[1:]
+			// A reader may return its last rows together with EOF.
+			if n > 0 {
+				return n, nil
+			}
 		case err != nil:
 			m.err = err
 			return n, err
